@@ -5,7 +5,7 @@
     same symbolic description (its own table of what each compass method takes), feeds the real
     VerifyAgainstTX / attestRouter / CheckAndProcessAttestedMessages, and records what they did. *)
 From Coq Require Import List ZArith Bool.
-From Paloma Require Import Base.Corr Evm.Attest Evm.AttestSym.
+From Paloma Require Import Base.Corr Cons.Quorum Evm.Attest Evm.AttestSym Evm.AttestEvidence.
 Import ListNotations.
 Open Scope Z_scope.
 
@@ -27,7 +27,7 @@ Definition valset_at (w : wstate) (id : Z) : valset := if id =? 0 then empty_val
 Definition envt := option (list body).
 
 Definition cmsg := msg body sigd tx.
-Definition cstate := state body sigd valset Z tx wstate.
+Definition astate := state body sigd valset Z tx wstate.
 Definition cwinner := @winner tx.
 
 Definition apply_effect (e : envt) (m : cmsg) (t : tx) (w : wstate) : option (wstate * list body) :=
@@ -40,23 +40,57 @@ Definition c_step := step body sigd valset calldata Z tx wstate envt b_kind b_fe
   calldata_eqb Z.eqb fst snd valset_at snd apply_effect on_error_proof.
 Definition c_attest := attest body sigd valset calldata Z tx wstate envt b_kind b_fees_present expected_calldata expected_deploy
   calldata_eqb Z.eqb fst snd valset_at snd apply_effect on_error_proof.
-Definition c_endblock := endblock body sigd valset calldata Z tx wstate envt b_kind b_fees_present expected_calldata expected_deploy
-  calldata_eqb Z.eqb fst snd valset_at snd apply_effect on_error_proof.
+
+(* ---------- second round: the validators' reports and the election of the winner ---------- *)
+
+(** group key: the (type, bytes) pair itself — the collision-free idealisation of sha256 *)
+Definition ckey := (Z * Z)%type.
+Definition ckeqb (a b : ckey) : bool := (fst a =? fst b) && (snd a =? snd b).
+Definition chash (t d : Z) : ckey := (t, d).
+
+(** serialisation of what BytesToHash covers: injective on what the harness produces (every
+    component is the id of an interned byte string or a number below 2^64 - 1; a transaction is
+    identified by the id of its hash) *)
+Definition enc_list (l : list Z) : Z := fold_left (fun acc x => acc * 18446744073709551616 + (x + 1)) l 1.
+Definition c_enc (p : payload tx) : Z :=
+  match p with
+  | HTx t r => enc_list ([1; match t with Some (h, _) => h + 1 | None => 0 end] ++
+                         match r with None => [0] | Some l => 1 :: l end)
+  | HErr m => enc_list [2; m]
+  | HOther d => enc_list [3; d]
+  end.
+
+(** the history's state: Evm/Attest.v's state plus the reports stored with each message.  The
+    current snapshot [sn] (validator ids with their shares, recorded total) is fixed per history. *)
+Definition cstate := @rstate body sigd valset Z tx wstate.
+Definition crop := @rop body sigd tx wstate envt ckey.
+Definition c_rstep (sn : snapshot) : cstate -> crop -> cstate :=
+  rstep body sigd valset calldata Z tx wstate envt b_kind b_fees_present expected_calldata expected_deploy
+    calldata_eqb Z.eqb fst snd valset_at snd apply_effect on_error_proof ckeqb chash c_enc (fun _ => sn).
+Definition c_elected (sn : snapshot) : cstate -> Z -> (list (@group ckey) -> list (@group ckey)) -> option cwinner :=
+  elected body sigd valset Z tx wstate ckeqb chash c_enc (fun _ => sn).
+Definition c_rendblock (sn : snapshot) : cstate -> (Z -> envt) -> (Z -> list (@group ckey) -> list (@group ckey)) -> cstate :=
+  rendblock body sigd valset calldata Z tx wstate envt b_kind b_fees_present expected_calldata expected_deploy
+    calldata_eqb Z.eqb fst snd valset_at snd apply_effect on_error_proof ckeqb chash c_enc (fun _ => sn).
+(** Go's map order: at most one group can hold 2/3 (C04 winner_unique), any order will do *)
+Definition c_ord (gs : list (@group ckey)) : list (@group ckey) := gs.
 
 (* ---------- recorded operations ---------- *)
 
-Inductive cwin :=
-| XNone                                  (* no evidence / no consensus *)
-| XTx (h : Z) (d : calldata) (status : Z) (* status -1: receipt bytes absent *)
-| XErr
-| XOther.
+(** a report: transaction proof (hash id, call data, receipt = [type; post state; status;
+    cumulative gas; bloom; logs] or absent), error proof (message), any other registered proof type *)
+Inductive cproof :=
+| XPTx (h : Z) (d : calldata) (rc : option (list Z))
+| XPErr (m : Z)
+| XPOther (tg d : Z).
 
-Definition win_of (w : cwin) : option cwinner :=
-  match w with
-  | XNone => None
-  | XTx h d st => Some (WTx (h, d) (if st =? (-1) then None else Some st))
-  | XErr => Some WErr
-  | XOther => Some WOther
+Definition receipt_of (l : list Z) : receipt :=
+  {| r_type := nth 0 l 0; r_post := nth 1 l 0; r_status := nth 2 l 0; r_gas := nth 3 l 0; r_bloom := nth 4 l 0; r_logs := nth 5 l 0 |}.
+Definition proof_of (p : cproof) : proof tx :=
+  match p with
+  | XPTx h d rc => PTx (h, d) (option_map receipt_of rc)
+  | XPErr m => PErr m
+  | XPOther tg d => POther tg d
   end.
 
 Inductive cop :=
@@ -65,7 +99,7 @@ Inductive cop :=
 | XSign (id : Z) (s : sigd)
 | XGas (id g : Z)
 | XValset (id v : Z)
-| XEvidence (id : Z) (w : cwin)
+| XAddEv (id : Z) (vals : list Z) (p : cproof) (* AddMessageEvidence by each of these validators, in this order *)
 | XRemove (id : Z)
 | XRemoveMany (ids : list Z)             (* pruning by the consensus end-blocker *)
 | XSkip (k : Z)                          (* k ids of the shared counter went to other queues *)
@@ -100,28 +134,32 @@ Fixpoint env_lookup (l : list (Z * option (list (Z * Z * list (Z * val))))) (id 
 Definition set_compass (b : bool) (w : wstate) : wstate := (fst w, b).
 
 (** an id handed to another queue: the turnstone queue never shows it *)
-Fixpoint skip_ids (s : cstate) (k : nat) : cstate :=
+Fixpoint skip_ids (sn : snapshot) (s : cstate) (k : nat) : cstate :=
   match k with
   | O => s
   | Datatypes.S j =>
-    let id := next_id _ _ _ _ _ _ s in
-    skip_ids (c_step (c_step s (OpEnqueue _ _ _ _ _ (mk_body (3, 0, [])))) (OpRemove _ _ _ _ _ id)) j
+    let id := next_id _ _ _ _ _ _ (abs s) in
+    skip_ids sn (c_rstep sn (c_rstep sn s (REnqueue (mk_body (3, 0, [])))) (RRemove id)) j
   end.
 
-Definition apply_cop (s : cstate) (o : cop) : cstate * Z :=
+Definition apply_cop (sn : snapshot) (s : cstate) (o : cop) : cstate * Z :=
   match o with
-  | XEnqueue b => (c_step s (OpEnqueue _ _ _ _ _ (mk_body b)), 0)
-  | XReplace id b => (c_step s (OpReplaceBody _ _ _ _ _ id (mk_body b)), 0)
-  | XSign id sg => (c_step s (OpSign _ _ _ _ _ id sg), 0)
-  | XGas id g => (c_step s (OpSetGas _ _ _ _ _ id g), 0)
-  | XValset id v => (c_step s (OpSetValset _ _ _ _ _ id v), 0)
-  | XEvidence id w => (c_step s (OpEvidence _ _ _ _ _ id (win_of w)), 0)
-  | XRemove id => (c_step s (OpRemove _ _ _ _ _ id), 0)
-  | XRemoveMany l => (fold_left (fun s' id => c_step s' (OpRemove _ _ _ _ _ id)) l s, 0)
-  | XSkip k => (skip_ids s (Z.to_nat k), 0)
-  | XCompass b => (c_step s (OpWorld _ _ _ _ _ (set_compass b)), 0)
-  | XAttest id e => let '(s', r) := c_attest s id (env_of e) in (s', res_class r)
-  | XEndBlock l => (c_endblock s (env_lookup l), 0)
+  | XEnqueue b => (c_rstep sn s (REnqueue (mk_body b)), 0)
+  | XReplace id b => (c_rstep sn s (RReplaceBody id (mk_body b)), 0)
+  | XSign id sg => (c_rstep sn s (RSign id sg), 0)
+  | XGas id g => (c_rstep sn s (RSetGas id g), 0)
+  | XValset id v => (c_rstep sn s (RSetValset id v), 0)
+  | XAddEv id vals p => (fold_left (fun s' v => c_rstep sn s' (RAddEvidence id v (proof_of p))) vals s, 0)
+  | XRemove id => (c_rstep sn s (RRemove id), 0)
+  | XRemoveMany l => (fold_left (fun s' id => c_rstep sn s' (RRemove id)) l s, 0)
+  | XSkip k => (skip_ids sn s (Z.to_nat k), 0)
+  | XCompass b => (c_rstep sn s (RWorld (set_compass b)), 0)
+  | XAttest id e =>
+    (* = c_rstep sn s (RAttest id (env_of e) c_ord), keeping attestRouter's result *)
+    let s1 := c_step (abs s) (OpEvidence _ _ _ _ _ id (c_elected sn s id c_ord)) in
+    let '(s2, r) := c_attest s1 id (env_of e) in
+    ({| abs := s2; evid := evid s |}, res_class r)
+  | XEndBlock l => (c_rendblock sn s (env_lookup l) (fun _ => c_ord), 0)
   end.
 
 (* ---------- projections of the model state ---------- *)
@@ -170,31 +208,34 @@ Definition effect_key (w : wstate) (e : effect body sigd valset tx) : list (Z * 
   | k => [(kind_z k, key)]
   end.
 
-Definition known_hashes (ops : list cop) : list Z :=
-  flat_map (fun o => match o with XEvidence _ (XTx h _ _) => [h] | _ => [] end) ops.
-
 Definition bool_eqb (a b : bool) : bool := if a then b else negb b.
 Definition relay_eqb (a b : Z * bool) : bool := (fst a =? fst b) && bool_eqb (snd a) (snd b).
 Definition zz_eqb (a b : Z * Z) : bool := (fst a =? fst b) && (snd a =? snd b).
 
-Definition obs_ok (s : cstate) (r : Z) (o : obs) : bool :=
+Definition obs_ok (rs : cstate) (r : Z) (o : obs) : bool :=
+  let s := abs rs in
   (r =? o_res o)
   && list_eqb Z.eqb (map (m_id _ _ _) (queue _ _ _ _ _ _ s)) (o_queue o)
   && list_eqb Z.eqb (dedup_sorted (sort_z (processed _ _ _ _ _ _ s))) (o_processed o)
   && list_eqb relay_eqb (sort_r (relay_log _ _ _ _ _ _ s)) (o_relay o)
   && list_eqb zz_eqb (sort_p (flat_map (effect_key (world _ _ _ _ _ _ s)) (effects _ _ _ _ _ _ s))) (o_effects o).
 
-Fixpoint run_steps (s : cstate) (l : list (cop * (Z * list Z * list Z * list (Z * bool) * list (Z * Z)))) : bool :=
+Fixpoint run_steps (sn : snapshot) (s : cstate) (l : list (cop * (Z * list Z * list Z * list (Z * bool) * list (Z * Z)))) : bool :=
   match l with
   | [] => true
-  | (o, ob) :: r => let '(s', res) := apply_cop s o in obs_ok s' res (mk_obs ob) && run_steps s' r
+  | (o, ob) :: r => let '(s', res) := apply_cop sn s o in obs_ok s' res (mk_obs ob) && run_steps sn s' r
   end.
+
+Definition c_init (snaps : list (Z * valset)) (n0 : Z) : cstate :=
+  rinit body sigd valset Z tx wstate (snaps, true) n0.
+Definition mk_snapshot (shares : list (Z * Z)) (total : Z) : snapshot := {| sn_vals := shares; sn_total := total |}.
 
 Inductive case :=
 (** real VerifyAgainstTX on one message and one transaction: got = 0 nil, 1 ErrEthTxNotVerified *)
 | CVerify (b : Z * Z * list (Z * val)) (id gas : Z) (v : valset) (sigs : list sigd) (d : calldata) (got : Z)
-(** a history on the real keepers: stored snapshots (projected), first message id, steps *)
-| CHistory (snaps : list (Z * valset)) (n0 : Z)
+(** a history on the real keepers: stored snapshots (projected), first message id, the current
+    snapshot's (validator id, share) list and recorded total, steps *)
+| CHistory (snaps : list (Z * valset)) (n0 : Z) (shares : list (Z * Z)) (total : Z)
            (steps : list (cop * (Z * list Z * list Z * list (Z * bool) * list (Z * Z)))).
 
 Definition check (c : case) : bool :=
@@ -205,24 +246,25 @@ Definition check (c : case) : bool :=
     | Some _ => got =? 0
     | None => got =? 1
     end
-  | CHistory snaps n0 steps =>
-    run_steps (init body sigd valset Z tx wstate (snaps, true) n0) steps
+  | CHistory snaps n0 shares total steps =>
+    run_steps (mk_snapshot shares total) (c_init snaps n0) steps
   end.
 
 (** debugging aid: index of the first step whose observation differs, with the five component
     verdicts (result, queue, processed, relay, effects) and the model's own values *)
-Fixpoint first_bad (s : cstate) (l : list (cop * (Z * list Z * list Z * list (Z * bool) * list (Z * Z)))) (i : Z) :=
+Fixpoint first_bad (sn : snapshot) (rs : cstate) (l : list (cop * (Z * list Z * list Z * list (Z * bool) * list (Z * Z)))) (i : Z) :=
   match l with
   | [] => None
   | (o, ob) :: r =>
-    let '(s', res) := apply_cop s o in
+    let '(rs', res) := apply_cop sn rs o in
+    let s' := abs rs' in
     let ob' := mk_obs ob in
-    if obs_ok s' res ob' then first_bad s' r (i + 1)
+    if obs_ok rs' res ob' then first_bad sn rs' r (i + 1)
     else Some (i, res, map (m_id _ _ _) (queue _ _ _ _ _ _ s'), dedup_sorted (sort_z (processed _ _ _ _ _ _ s')),
                sort_r (relay_log _ _ _ _ _ _ s'), sort_p (flat_map (effect_key (world _ _ _ _ _ _ s')) (effects _ _ _ _ _ _ s')))
   end.
 Definition diagnose (c : case) :=
   match c with
-  | CHistory snaps n0 steps => first_bad (init body sigd valset Z tx wstate (snaps, true) n0) steps 0
+  | CHistory snaps n0 shares total steps => first_bad (mk_snapshot shares total) (c_init snaps n0) steps 0
   | _ => None
   end.
